@@ -120,6 +120,9 @@ def expand(item, seed):
             yield {"frames": spec, "api": "recv_data_frame_ctrl", "state": "word", "word": w, "seed": 1}
             if len(w) <= 3:
                 yield {"frames": spec, "api": "recv", "state": "word", "word": w, "seed": 1}
+            if len(w) <= 4:
+                # the sequencing rules do not depend on how messages are handed to the caller: per-fragment delivery too
+                yield {"frames": spec, "api": "recv_data_frame_ctrl", "state": "word", "word": w, "fire_cont": True, "seed": 1}
     else:
         for i in range(item["start"], item["start"] + item["count"]):
             yield gen(random.Random(derive_seed(seed, ID, i)))
@@ -157,7 +160,10 @@ def gen(rng):
         fr = {"fin": 1, "op": rng.choice((1, 2, 9, 10)), "hex": "6869"}
     spec.append(fr)
     api = rng.choice(("recv", "recv_data", "recv_data_ctrl", "recv_data_frame", "recv_data_frame_ctrl"))
-    return {"frames": spec, "api": api, "state": "rand:" + cls, "sizes": [rng.choice((1, 2, 3, 100))], "seed": rng.randrange(1 << 30)}
+    sc = {"frames": spec, "api": api, "state": "rand:" + cls, "sizes": [rng.choice((1, 2, 3, 100))], "seed": rng.randrange(1 << 30)}
+    if api != "recv" and rng.random() < 0.3:
+        sc["fire_cont"] = True
+    return sc
 
 
 def run(sc, choices=None):
@@ -165,8 +171,11 @@ def run(sc, choices=None):
     try:
         stream, frames = frames_from(sc["frames"])
         api = sc["api"]
+        fire = bool(sc.get("fire_cont"))
         cfg = {"api": api, "timeout": 4 * S, "end": "eof", "sizes": list(sc.get("sizes", ())), "max_calls": len(frames) + 4,
-               "step_cap": 1_500_000}
+               "step_cap": 1_500_000, "fire_cont": fire}
+        if fire and api == "recv":
+            raise InvalidScenario("recv() in per-fragment mode is not pinned down")
     except (KeyError, TypeError, ValueError) as e:
         raise InvalidScenario(str(e))
     if not frames:
@@ -190,8 +199,10 @@ def run(sc, choices=None):
         extra = R.close_code_class(code) + ("/bad_reason" if n > 2 and not R.utf8_ok(last.payload[2:]) else "")
     cls = _illegal_class(frames)
     ctx = f"{'recv_frame' if api == 'recv_frame' else 'message_level'}/{cls}"
-    check_model(res, out, frames, api, False, False, "eof", ctx)
-    res.sig = repr((api, sc.get("state"), sc.get("word"), b0, lcls, extra, len(frames)))
+    if fire:
+        ctx += "/per_fragment"
+    check_model(res, out, frames, api, fire, False, "eof", ctx)
+    res.sig = repr((api, sc.get("state"), sc.get("word"), b0, lcls, extra, len(frames), fire))
     res.nontrivial = cls != "legal" or len(frames) > 1
     res.probes["class_" + cls] = 1
     return res
